@@ -32,6 +32,7 @@ struct Handle {
   int expect_close = 0;
   bool hole_seen = false;
   bool just_sought = false; int reads_since_seek = 0;
+  int last_section = -1;      // logical stream index of the last successful read (the link table is asked again when it changes)
   bool lap_dirty = false;     // a lapped seek outside twin mode altered the next samples
   Hasher obs;                 // everything this handle let the caller observe (twin comparison)
 };
@@ -149,6 +150,7 @@ struct VfRun {
   int odd_links() const { int n = 0; for (int i = 0; i < sr.nlinks; i++) if (sr.ps.links[i]->len & 1) n++; return n; }
   void oracle_seek(Handle &H, const Rec &op, const std::string &kind, long ret, int64_t t0, int64_t t1, bool lap);
   void oracle_open(Handle &H, long ret);
+  void link_table(Handle &H, const char *site);
   static float filter_gain(const Rec &op) { return op.s("kind") == "read_filter" ? (float)op.f("gain", 0.5) : 1.f; }
   void expected_int(const float *const *chan, int nch, int64_t off, int frames, int word, int sgned, int be, std::vector<uint8_t> &lo, std::vector<uint8_t> &hi, float gain = 1.f);
   void finish(Handle &H, bool twice);
@@ -410,8 +412,16 @@ void VfRun::oracle_open(Handle &H, long ret) {
   check(ret == 0, {"C07", "C08", "C09", "C10", "C12", "C17", "C19", "C20"}, "open", "intact-open-failed", fmt("ret=%ld", ret), {{"ret", std::to_string(ret)}});
   if (ret != 0 || H.part) return;
   if (!H.seekable) { check(ov_seekable(H.vf) == 0, {"C10"}, "open", "seekable-flag", ""); return; }
-  // C09: link table
+  link_table(H, "open");
+  check(ov_pcm_tell(H.vf) == 0, {"C09", "C07", "C10"}, "open", "tell-not-zero-after-open", fmt("tell=%lld", (long long)ov_pcm_tell(H.vf)));
+}
+
+// C09: the link table (count, and per link: channels, rate, serial number, length, comments, duration; the totals). Asked right after the open, and
+// again whenever a linear read enters another link and at every "info" op: what is reported for link i does not depend on where the decoder is.
+void VfRun::link_table(Handle &H, const char *site) {
   std::initializer_list<const char *> P = {"C09"};
+  if (inexact() || H.io_dirty || H.part || !H.open || !H.seekable) return;
+  g_stats.inc(std::string("probe.link_table_checked_at_") + site);
   long k = ov_streams(H.vf);
   check(k == sr.nlinks, P, "open", "link-count", fmt("ov_streams=%ld want %d", k, sr.nlinks), {{"got", std::to_string(k)}, {"want", std::to_string(sr.nlinks)}});
   if (k != sr.nlinks) return;
@@ -427,7 +437,6 @@ void VfRun::oracle_open(Handle &H, long ret) {
   }
   check(ov_pcm_total(H.vf, -1) == sr.total, P, "open", "total-length", fmt("%lld want %lld", (long long)ov_pcm_total(H.vf, -1), (long long)sr.total));
   check(ov_raw_total(H.vf, -1) <= (int64_t)sr.bytes.size() && ov_raw_total(H.vf, -1) > 0, P, "open", "raw-total", "");
-  check(ov_pcm_tell(H.vf) == 0, {"C09", "C07", "C10"}, "open", "tell-not-zero-after-open", fmt("tell=%lld", (long long)ov_pcm_tell(H.vf)));
 }
 
 // is the target of a seek op in range, and where should it land?
